@@ -1,7 +1,6 @@
 package sx
 
 import (
-	"fmt"
 	"go/types"
 )
 
@@ -22,7 +21,7 @@ type ginRoute struct {
 }
 
 func (m *Machine) ginGroupOf(p *Value) *ginGroup {
-	key := fmt.Sprintf("gingroup:%p", p)
+	key := m.addrKey("gingroup", p)
 	if g, ok := m.env[key].(*ginGroup); ok {
 		return g
 	}
